@@ -46,7 +46,12 @@ type Evidence struct {
 }
 
 func (e *Evidence) Write() error {
+	// runs against a patched copy of the repository (VERIF_REPO != /repo: self tests, seeded changes)
+	// must not overwrite the evidence of the real tree
 	dir := filepath.Join(Root(), "evidence")
+	if v := os.Getenv("VERIF_EVIDENCE_DIR"); v != "" {
+		dir = v
+	}
 	_ = os.MkdirAll(dir, 0o755)
 	b, err := json.MarshalIndent(e, "", " ")
 	if err != nil {
